@@ -145,6 +145,17 @@ GROUPS = {
         nontrivial='schedules in which the running task changes at least once',
         functions=['DirectAddrUpdateState::{new, schedule_run, try_run, run}', 'UpdateReason::is_major', 'Actor::run (the direct_addr_done_rx.recv() arm)'],
     ),
+    # C26: a schedule property; home relay changes against status updates of relay connections
+    'home_relay_watch_bx': dict(
+        unit='home_relay_watch.rs', props=['C26'],
+        bounds=dict(quick=['2', '0'], thorough=['3', '4']),
+        space='EVERY schedule (controlled scheduler; scheduling points = each access to the shared watchable and each acquisition of the writers\' lock) of: the relay '
+              'actor choosing a new home (or none, or a new one and back) while the demoted connection reports one or two statuses (connected / disconnected / '
+              'connecting), from "relay 1 is home" and from "no home"; with {0} >= 3 threads also the new home\'s connection reporting concurrently and two successive '
+              'home changes, explored with at most {1} pre-emptive context switches (0 = every schedule)',
+        nontrivial='schedules in which the running thread changes at least once',
+        functions=['HomeRelayWatch::{default, set, clear, set_status, get}', 'RelayStatus::{new, url, is_connected}', 'RelayConnectionState::{eq, is_connected}'],
+    ),
     # second line behind the Verus unit builder_bind
     'builder_bind_bx': dict(
         unit='builder_bind.rs', props=['C20'],
